@@ -40,6 +40,9 @@ func runC11(c *Ctx) {
 	// the scan that keeps a hidden directory open looks at the patterns that
 	// can bring entries back (shared with C10)
 	r10_13(c, "R11.10")
+	// ... and every entry the walk reports was put to the matchers Open
+	// consults, itself - not its parent (shared with C10)
+	r10_14(c, "R11.14")
 	// a promoted link member is requested like any regular file: ids are
 	// zero-based STAT positions on both ends (shared with C06/C07)
 	idNumbering(c, "R11.11", "R11.12", "R11.13")
